@@ -237,10 +237,16 @@ def fill_sample(cx, chk, cfg, F):
         if p.ret != ("param", 2, False):
             bad("ret", "returns %s instead of the (extended) input vector" % fmt_val(p.ret)[:60])
         evs = p.events
-        muts = [(i, e) for i, e in enumerate(evs) if e["ev"] == "call" and e["args"] and e["args"][0] == PAIRS and (e["q"] or "").split("::")[-1] not in ("len", "is_empty", "capacity", "iter", "as_slice")]
+        muts = [(i, e) for i, e in enumerate(evs) if e["ev"] == "call" and e["args"] and e["args"][0] == PAIRS and (e["q"] or "").split("::")[-1] not in ("len", "is_empty", "capacity", "iter", "as_slice", "deref", "as_ref", "borrow")]
         lens = {}
+        views = set()   # shared slice views of the input vector (`&pairs` passed as `&[_]`)
         for i, e in enumerate(evs):
-            if e["ev"] == "call" and (e["q"] or "").endswith("Vec::len") and e["args"] and e["args"][0] == PAIRS:
+            if e["ev"] != "call" or not e["args"]:
+                continue
+            nm = (e["q"] or "").split("::")[-1]
+            if e["args"][0] == PAIRS and nm in ("deref", "as_slice", "as_ref", "borrow"):
+                views.add(("call", e["id"], e["q"]))
+            if ((e["q"] or "").endswith("Vec::len") and e["args"][0] == PAIRS) or (nm == "len" and e["args"][0] in views):
                 lens[("call", e["id"], e["q"])] = i
         tests = []   # (event index, truth of len >= samples)
         for i, e in enumerate(evs):
